@@ -176,12 +176,17 @@ void case_reinit(Ctx &c) {
   x.s.clear_tx(); x.s.clear_ev();
   x.s.preempt = [&](bool lock) { x.inject(lock); };
   VLOG(c, "pool=%u, complete node", x.s.ntmr);
-  int steps = 0, reinits = 0, reinits_armed = 0;
+  int steps = 0, reinits = 0, reinits_armed = 0, stops = 0;
   while (!c.t.exhausted() && steps < 200) {
     steps++; c.ops++;
     x.budget = (int)c.t.below(4);
-    static const uint16_t W[6] = {34, 12, 20, 8, 14, 14};
+    static const uint16_t W[7] = {34, 12, 20, 8, 14, 14, 6};
     uint32_t op = c.t.weighted(W);
+    if (op == 6) {   // CONodeStop alone: it ends the communication, not the application's timed actions - they stay pending and go on firing (COTmrClear: "the timers created by the application will still be active")
+      VLOG(c, "CONodeStop (%d application action(s) pending)", x.nactive());
+      x.s.api_begin(); CONodeStop(x.s.node); x.s.api_end("CONodeStop"); x.s.clear_tx(); x.s.clear_ev(); stops++;
+      x.after_op("CONodeStop");
+    } else
     if (op == 0) { x.create(c.t.below(5), c.t.below(4)); x.after_op("create"); }
     else if (op == 1) { std::vector<int> act; for (auto &a : x.m) if (a.active) act.push_back(a.id); int id = !act.empty() && c.t.chance(200) ? act[c.t.below((uint32_t)act.size())] : (int)c.t.below(x.s.ntmr + 2) - 1; x.del(id); x.after_op("delete"); }
     else if (op == 2) { uint32_t n = 1 + c.t.below(3); VLOG(c, "%u service call(s)", n); for (uint32_t i = 0; i < n; i++) x.one_service("between calls"); }
@@ -203,6 +208,7 @@ void case_reinit(Ctx &c) {
   x.budget = 0; x.process(); x.after_op("final process");
   if (x.injected > 0 || reinits_armed > 0) c.nontrivial = true;
   if (x.injected) c.cls("service-injected-at-lock-boundary");
+  if (stops) c.cls("node-stopped-with-application-actions-pending");
   if (reinits) c.cls("second-initialisation-on-the-same-memory"); if (reinits_armed) c.cls("second-initialisation-with-the-hardware-timer-armed");
   if (x.fired) c.cls("callback-fired");
 }
